@@ -403,3 +403,43 @@ def pmap(fn, items, chunksize=64, procs=None):
     ctx = mp.get_context('fork')
     with ctx.Pool(procs) as pool:
         return pool.map(fn, items, chunksize)
+
+
+def validate_trace(module, records, name, rep=None, chunk=6000, jobs=4,
+                   workers=3, heap='3g'):
+    """
+    Batch trace validation: the records (dicts with an `id`) are written as
+    NDJSON in slices of `chunk` records, each slice is validated by its own
+    TLC run of spec/<module>.tla (SPECIFICATION Spec, INVARIANT Verdict, one
+    behaviour per record) and the PrintT lines of all runs are returned.
+    Slices keep every JVM small: TLC deserialises the whole trace file once
+    per worker thread, so one large file with many workers exhausts the
+    heap.
+    """
+    from concurrent.futures import ThreadPoolExecutor
+    d = tmp_dir(name)
+    files = []
+    for n, i in enumerate(range(0, len(records), chunk)):
+        tf = os.path.join(d, '%s-%d.ndjson' % (module, n))
+        with open(tf, 'w') as f:
+            for r in records[i:i + chunk]:
+                f.write(json.dumps(r) + '\n')
+        files.append(tf)
+
+    def one(tf):
+        return run_tlc(module, cfg=module + '.cfg',
+                       cfg_text='SPECIFICATION Spec\nINVARIANT Verdict\n',
+                       modules={'Dummy_': '---- MODULE Dummy_ ----\n====\n'},
+                       workers=workers, env={'TRACE_FILE': tf}, heap=heap)
+    lines = []
+    with ThreadPoolExecutor(max_workers=jobs) as ex:
+        for tr in ex.map(one, files):
+            if rep is not None:
+                rep.add_tlc(tr)
+            lines.extend(tr.lines)
+    for tf in files:
+        try:
+            os.unlink(tf)
+        except OSError:
+            pass
+    return lines
